@@ -99,7 +99,7 @@ def run(ctx):
             # surplus arms: targets of bool switches on which size>max (or size>=max after the decrement) holds
             surplus = []
             for blk in h.blocks:
-                if blk.term.kind == 'switch' and blk.term.j.get('dty') == 'bool':
+                if blk.term.kind == 'switch' and (blk.term.j.get('dty') == 'bool' or blk.term.j.get('variants')):
                     for lab, tgt in blk.term.switch_arms():
                         rel = cmp_relation(han, r, blk, lab)
                         if rel and rel[0] in ('size>max', 'size>=max'):
